@@ -52,3 +52,5 @@ import LexVerif.Model.Ops.ParseFloatAlgo
 import LexVerif.Model.Ops.Slow
 import LexVerif.Props.C01Slow
 import LexVerif.Props.C01SlowMain
+import LexVerif.Props.C01Final
+import LexVerif.Props.C12Sep
